@@ -871,4 +871,251 @@ example : (run builtinEnv [] [.newBuilder, .fromCallable ⟨[], .absent⟩ [], .
 -- the default of `with_edge(frum=…)` is the output name `from_callable` declares
 example : (withEdge exB "s" "k" (.kw "a")).edges = [⟨"s", "0", "k", .kw "a"⟩] ∧ exSrc.defn.outputSchema.map (·.1) = ["0"] := by decide
 
+/-! ### audit round 2: exactly when `build` raises; no parameter name is special -/
+
+/-- the keyword static `k` of task `t` cannot be judged without evaluating a type name outside the universe -/
+def StaticNeeds (env : TyEnv) (t : Task) (k : String) : Prop :=
+  ∃ ty, lookup t.defn.inputSchema k = some ty ∧ ¬ (ty = anyTy ∨ ty ∈ skipped) ∧ env.evaluable ty = false
+
+/-- the edge `e` has both ends, is a keyword edge into an existing parameter, its two declared types are not
+trivially compatible, and one of them is a type name outside the universe -/
+def EdgeNeeds (env : TyEnv) (nodes : List (String × Task)) (e : Edge) : Prop :=
+  ∃ st ot kt p it, lookup nodes e.src = some st ∧ truthy (lookup st.defn.outputSchema e.out) = some ot ∧
+    lookup nodes e.sink = some kt ∧ e.into = .kw p ∧ truthy (lookup kt.defn.inputSchema p) = some it ∧
+    ¬ (it = anyTy ∨ ot = anyTy ∨ ot = it ∨ (ot, it) ∈ legits) ∧ ¬ (env.evaluable ot = true ∧ env.evaluable it = true)
+
+def NeedsUnknown (env : TyEnv) (b : JobBuilder) : Prop :=
+  (∃ n t k v, (n, t) ∈ b.nodes ∧ (k, v) ∈ t.kw ∧ StaticNeeds env t k) ∨ (∃ e ∈ b.edges, EdgeNeeds env b.nodes e)
+
+namespace Aux
+
+theorem err_eq (e : Err) : e = .nameError := by cases e; rfl
+
+theorem collect_error_iff (l : List (Except Err (List Problem))) :
+    collect l = .error .nameError ↔ .error .nameError ∈ l := by
+  induction l with
+  | nil => simp [collect]
+  | cons hd tl ih =>
+    cases hd with
+    | error e => cases e; simp [collect]
+    | ok ps =>
+      simp only [collect, List.mem_cons, reduceCtorEq, false_or]
+      rw [← ih]
+      cases hc : collect tl with
+      | error e => cases e; simp
+      | ok qs => simp
+
+theorem isInstance_error_iff (env : TyEnv) (v : Val) (ty : Ty) :
+    isInstance env v ty = .error .nameError ↔ ¬ (ty = anyTy ∨ ty ∈ skipped) ∧ env.evaluable ty = false := by
+  unfold isInstance
+  by_cases h1 : ty = anyTy ∨ ty ∈ skipped
+  · simp [h1]
+  · by_cases h2 : env.evaluable ty = true
+    · simp [h1, h2]
+    · simp [h1, h2]
+
+theorem isSubclass_error_iff (env : TyEnv) (ot it : Ty) :
+    isSubclass env ot it = .error .nameError ↔
+      ¬ (it = anyTy ∨ ot = anyTy ∨ ot = it ∨ (ot, it) ∈ legits) ∧ ¬ (env.evaluable ot = true ∧ env.evaluable it = true) := by
+  unfold isSubclass
+  by_cases h1 : it = anyTy ∨ ot = anyTy ∨ ot = it ∨ (ot, it) ∈ legits
+  · simp [h1]
+  · by_cases h2 : env.evaluable ot = true ∧ env.evaluable it = true
+    · simp [h1, h2]
+    · simp [h1, h2]
+
+theorem staticCheck_error_iff (env : TyEnv) (n : String) (t : Task) (k : String) (v : Val) :
+    staticCheck env n t k v = .error .nameError ↔ StaticNeeds env t k := by
+  unfold staticCheck StaticNeeds
+  cases hl : lookup t.defn.inputSchema k with
+  | none => simp
+  | some ty =>
+    simp only [Option.some.injEq, exists_eq_left']
+    rw [← isInstance_error_iff env v ty]
+    cases hi : isInstance env v ty with
+    | error e => cases e; simp
+    | ok b => cases b <;> simp
+
+theorem edgeErrors_error_iff (env : TyEnv) (nodes : List (String × Task)) (e : Edge) :
+    edgeErrors env nodes e = .error .nameError ↔ EdgeNeeds env nodes e := by
+  unfold edgeErrors EdgeNeeds
+  cases hk : lookup nodes e.sink with
+  | none => simp
+  | some kt =>
+    cases hi : e.into with
+    | ps i => simp
+    | kw p =>
+      cases ht : truthy (lookup kt.defn.inputSchema p) with
+      | none => simp [ht]
+      | some it =>
+        cases hs : lookup nodes e.src with
+        | none => simp [ht]
+        | some st =>
+          cases ho : truthy (lookup st.defn.outputSchema e.out) with
+          | none => simp [ht, ho]
+          | some ot =>
+            simp only [ht, ho, Option.some.injEq, Into.kw.injEq, exists_and_left, exists_eq_left']
+            rw [← isSubclass_error_iff env ot it]
+            cases hc : isSubclass env ot it with
+            | error er => cases er; simp
+            | ok b => cases b <;> simp
+
+end Aux
+
+/-- **`build` raises exactly when an item needs an unknown type name.**  `build` raises (NameError, the only exception
+left) if and only if some keyword static is bound to a parameter whose declared type is a name outside the universe
+(and not `Any` / a skipped name), or some keyword edge with both ends present joins two declared types that are not
+trivially compatible (`Any`, equal, a `legits` pair) and one of them is outside the universe.  In particular a
+non-builtin annotation that no bound value and no edge touches never makes `build` raise, and every other static and
+edge of such a builder is still judged - which is what the oracle's item-wise exemption relies on. -/
+theorem c19_crash_iff_item_needs_unknown_type (env : TyEnv) (b : JobBuilder) :
+    build env b = .error .nameError ↔ NeedsUnknown env b := by
+  have hS : collect (staticChecks env b.nodes) = .error .nameError ↔
+      ∃ n t k v, (n, t) ∈ b.nodes ∧ (k, v) ∈ t.kw ∧ StaticNeeds env t k := by
+    rw [Aux.collect_error_iff]
+    constructor
+    · intro hx
+      simp only [staticChecks, List.mem_flatMap, List.mem_map] at hx
+      obtain ⟨nt, hnt, kv, hkv, hxe⟩ := hx
+      exact ⟨nt.1, nt.2, kv.1, kv.2, hnt, hkv, (Aux.staticCheck_error_iff env _ _ _ _).mp hxe⟩
+    · intro ⟨n, t, k, v, hnt, hkv, hn⟩
+      simp only [staticChecks, List.mem_flatMap, List.mem_map]
+      exact ⟨(n, t), hnt, (k, v), hkv, (Aux.staticCheck_error_iff env n t k v).mpr hn⟩
+  have hE : collect (b.edges.map (edgeErrors env b.nodes)) = .error .nameError ↔ ∃ e ∈ b.edges, EdgeNeeds env b.nodes e := by
+    rw [Aux.collect_error_iff]
+    constructor
+    · intro hx
+      simp only [List.mem_map] at hx
+      obtain ⟨e, he, hxe⟩ := hx
+      exact ⟨e, he, (Aux.edgeErrors_error_iff env _ e).mp hxe⟩
+    · intro ⟨e, he, hn⟩
+      exact List.mem_map.mpr ⟨e, he, (Aux.edgeErrors_error_iff env _ e).mpr hn⟩
+  unfold NeedsUnknown
+  rw [← hS, ← hE]
+  unfold build
+  cases h1 : collect (staticChecks env b.nodes) with
+  | error e1 => cases e1; simp
+  | ok s =>
+    cases h2 : collect (b.edges.map (edgeErrors env b.nodes)) with
+    | error e2 => cases e2; simp
+    | ok es =>
+      dsimp only
+      split <;> simp
+
+namespace Aux
+theorem lastBinding_isSome {κ α : Type} [DecidableEq κ] (l : List (κ × α)) (k : κ) :
+    (lastBinding l k).isSome = true ↔ k ∈ l.map (·.1) := by
+  induction l with
+  | nil => simp [lastBinding]
+  | cons hd tl ih =>
+    obtain ⟨k', v⟩ := hd
+    simp only [lastBinding, List.map_cons, List.mem_cons]
+    cases h : lastBinding tl k with
+    | some w =>
+      have : k ∈ tl.map (·.1) := ih.mp (by simp [h])
+      simp [this]
+    | none =>
+      have : ¬ k ∈ tl.map (·.1) := fun hm => by have := ih.mpr hm; simp [h] at this
+      by_cases hk : k' = k
+      · simp [hk]
+      · simp [hk, this, Ne.symm hk]
+end Aux
+
+/-- **No parameter name is special.**  The input schema `from_callable` records has an entry for `k` if and only if `k`
+is the name of a positional-or-keyword or keyword-only parameter of the signature - whatever the name is (`self`,
+`cls`, `args`, ...: an unbound method `C.f`, a plain `def f(self, a)`); positional-only parameters, `*args` and
+`**kwargs` never appear. (The receiver of a BOUND method is not part of the signature `inspect` reports.) -/
+theorem c19_schema_is_exactly_the_keyword_parameters (s : Sig) (k : String) :
+    (lookup (fromCallable s).defn.inputSchema k).isSome = true ↔ ∃ p ∈ s.params, p.kind.byKeyword = true ∧ p.name = k := by
+  rw [(c19_from_callable s k).2.1, Aux.lastBinding_isSome]
+  simp only [List.map_map, List.mem_map, List.mem_filter, Function.comp]
+  constructor
+  · intro ⟨p, ⟨hp, hb⟩, hk⟩; exact ⟨p, hp, hb, hk⟩
+  · intro ⟨p, hp, hb, hk⟩; exact ⟨p, ⟨hp, hb⟩, hk⟩
+
+-- `C.f` for `class C: def f(self, a: int, /, ...)`: the receiver is an ordinary parameter of the schema
+example : (fromCallable { params := [⟨"self", .posOrKw, .absent, none⟩, ⟨"a", .posOrKw, .named "int", none⟩], ret := .absent }).defn.inputSchema
+    = [("self", "Any"), ("a", "int")] := by decide
+-- a declared type outside the universe that nothing touches: build does not raise, and still judges the rest
+example : build builtinEnv (withEdge (withNode (withNode JobBuilder.empty "s"
+      (fromCallable { params := [⟨"u", .posOrKw, .named "Foo", none⟩], ret := .named "int" })) "k" exSnk) "s" "k" (.kw "b")) =
+    .ok (.problems [.incompatible ⟨"s", "0", "k", .kw "b"⟩]) := by decide
+-- ... and raises as soon as an item needs it
+example : NeedsUnknown builtinEnv (withEdge (withNode (withNode JobBuilder.empty "s"
+      (fromCallable { params := [], ret := .named "Foo" })) "k" exSnk) "s" "k" (.kw "a")) :=
+  (c19_crash_iff_item_needs_unknown_type _ _).mp (by decide)
+
+/-! ### audit round 2: every verdict of every program -/
+
+namespace Aux
+
+theorem evalOp_result (env : TyEnv) (store : List Obj) (op : Op) (r : Except Err Result)
+    (h : evalOp env store op = .result r) : ∃ jb, Obj.builder jb ∈ store ∧ r = build env jb := by
+  cases op with
+  | fromCallable s environment => simp [evalOp] at h
+  | fromEntrypoint ep schema out environment => simp [evalOp] at h
+  | withValues t args kwargs =>
+    simp only [evalOp] at h
+    split at h <;> cases h
+  | newBuilder => simp [evalOp] at h
+  | withNode b name t =>
+    simp only [evalOp] at h
+    split at h <;> cases h
+  | withEdge b source sink into frum =>
+    simp only [evalOp] at h
+    split at h
+    · split at h <;> cases h
+    · cases h
+  | build b =>
+    simp only [evalOp] at h
+    split at h
+    · rename_i jb heq
+      injection h with h
+      exact ⟨jb, List.mem_of_getElem? heq, h.symm⟩
+    · cases h
+
+theorem run_results (env : TyEnv) (ops : List Op) (store : List Obj)
+    (hs : ∀ r, Obj.result r ∈ store → ∃ jb, Obj.builder jb ∈ store ∧ r = build env jb) :
+    ∀ r, Obj.result r ∈ run env store ops → ∃ jb, Obj.builder jb ∈ run env store ops ∧ r = build env jb := by
+  induction ops generalizing store with
+  | nil => simpa [run] using hs
+  | cons op ops ih =>
+    simp only [run, List.foldl_cons]
+    apply ih
+    intro r hr
+    simp only [step, List.mem_append, List.mem_singleton] at hr ⊢
+    rcases hr with hr | hr
+    · obtain ⟨jb, hjb, e⟩ := hs r hr
+      exact ⟨jb, Or.inl hjb, e⟩
+    · obtain ⟨jb, hjb, e⟩ := evalOp_result env store op r hr.symm
+      exact ⟨jb, Or.inl hjb, e⟩
+
+end Aux
+
+/-- **Every verdict of every program, without hypothesis on the annotations.**  Whatever sequence of builder calls is
+made - also with type names outside the universe - every result of a `build` in the store is the verdict on a builder
+the program made, and it is an exception (NameError) exactly when that builder has an item that needs an unknown type
+name; otherwise it is a job or a problem list. (`c19_never_crashes_run` is the special case in which no task declares
+such a name.) -/
+theorem c19_every_verdict_run (env : TyEnv) (ops : List Op) :
+    ∀ r, Obj.result r ∈ run env [] ops → ∃ jb, Obj.builder jb ∈ run env [] ops ∧ r = build env jb ∧
+      (r = .error .nameError ↔ NeedsUnknown env jb) ∧ (¬ NeedsUnknown env jb → ∃ x, r = .ok x) := by
+  intro r hr
+  obtain ⟨jb, hjb, e⟩ := Aux.run_results env ops [] (by intro r h; cases h) r hr
+  refine ⟨jb, hjb, e, ?_, ?_⟩
+  · rw [e]; exact c19_crash_iff_item_needs_unknown_type env jb
+  · intro hn
+    rw [e]
+    cases hb : build env jb with
+    | ok x => exact ⟨x, rfl⟩
+    | error err =>
+      cases err
+      exact absurd ((c19_crash_iff_item_needs_unknown_type env jb).mp hb) hn
+
+-- non-vacuity: a program that declares the unknown name `Foo`; the builder that does not touch it gets a verdict, the one whose
+-- edge needs it raises
+example : (run builtinEnv [] [.fromCallable ⟨[], .named "Foo"⟩ [], .fromCallable ⟨[⟨"a", .posOrKw, .named "int", none⟩], .absent⟩ [],
+      .newBuilder, .withNode 2 "s" 0, .withNode 3 "k" 1, .build 4, .withEdge 4 "s" "k" (.kw "a") none, .build 6]).map
+    (fun o => match o with | .result (.error _) => 2 | .result (.ok (.job _)) => 1 | _ => 0) = [0, 0, 0, 0, 0, 1, 0, 2] := by decide
+
 end EkwVerif.Builder
